@@ -61,11 +61,12 @@ def rdMut : Rd Pred.C20.Mut := do
     that `Pred.C20.pred` ignores it:
     * `clonePO`, `hPO` — the deprecated `Header.PayloadOffset` ("to be removed" in packet.go; a
       by-product of Unmarshal, not one of the header fields of C01's "every header field");
+    * `cloneRaw` — the deprecated `Packet.Raw` of the clone (today: nil, Clone drops it);
     * `cloneNils`, `hNils` — whether an EMPTY slice (CSRC, payload, `Extensions`, an extension
       element's value) is nil or not: a zero-length value is the same value either way.
-    All four are still compared with the model (correspondence). -/
+    All five are still compared with the model (correspondence). -/
 def c20canon (x : Pred.C20.Input) (o : Pred.C20.Obs) : Pred.C20.Obs :=
-  { o with clonePO := x.po, hPO := x.po, cloneNils := x.nils, hNils := { x.nils with payload := false } }
+  { o with clonePO := x.po, hPO := x.po, cloneRaw := none, cloneNils := x.nils, hNils := { x.nils with payload := false } }
 
 /-- C20 as worded: equal in all header fields, extensions, payload and padding size; no shared
     memory; the untouched side unchanged by a mutation of the other -/
@@ -80,22 +81,22 @@ theorem c20predR_of_pred (x : Pred.C20.Input) (o : Pred.C20.Obs) :
     Pred.C20.independent, Bool.and_eq_true, beq_self_eq_true, and_true]
   exact ⟨⟨⟨⟨h.1.1.1.1.1.1.1.1, h.1.1.1.1.1.1.2⟩, h.1.1.1.1.1.2⟩, h.1.2⟩, h.2⟩
 
-/-- `c20.clone  <packet> payloadOffset <nils> <mut> <onClone>
-      => marshal0 <clone side> <nils> clonePO ovPayload ovCsrc ovExtArr ovExtPl
+/-- `c20.clone  <packet> payloadOffset raw <nils> <mut> <onClone>
+      => marshal0 <clone side> <nils> clonePO cloneRaw ovPayload ovCsrc ovExtArr ovExtPl
          <hclone header> hRaw <hnils> hPO hovCsrc hovExtArr hovExtPl <other side> otherMarshal
          <hclone header after the mutation> hAfterRaw` -/
 def c20clone : Handler :=
   mkHandler
-    (do let p ← rdPacket; let po ← Rd.nat; let n ← rdNils true; let m ← rdMut; let s ← Rd.bool
-        pure ({ p := p, po := po, nils := n, mutn := m, onClone := s } : Pred.C20.Input))
+    (do let p ← rdPacket; let po ← Rd.nat; let raw ← Rd.obytes; let n ← rdNils true; let m ← rdMut; let s ← Rd.bool
+        pure ({ p := p, po := po, raw := raw, nils := n, mutn := m, onClone := s } : Pred.C20.Input))
     (do let m0 ← rdBytesRes
-        let c ← rdSide; let cn ← rdNils true; let cpo ← Rd.nat
+        let c ← rdSide; let cn ← rdNils true; let cpo ← Rd.nat; let craw ← Rd.obytes
         let o1 ← Rd.bool; let o2 ← Rd.bool; let o3 ← Rd.bool; let o4 ← Rd.bool
         let hc ← rdHeader; let hr ← Rd.u16; let hn ← rdNils false; let hpo ← Rd.nat
         let h1 ← Rd.bool; let h2 ← Rd.bool; let h3 ← Rd.bool
         let ot ← rdSide; let om ← rdBytesRes
         let ha ← rdHeader; let har ← Rd.u16
-        pure ({ marshal0 := m0, clone := c, cloneNils := cn, clonePO := cpo, hPO := hpo, hAfter := ha,
+        pure ({ marshal0 := m0, clone := c, cloneNils := cn, clonePO := cpo, cloneRaw := craw, hPO := hpo, hAfter := ha,
                 hAfterRaw := har, ovPayload := o1, ovCsrc := o2, ovExtArr := o3,
                 ovExtPl := o4, hclone := hc, hRaw := hr, hNils := hn, hovCsrc := h1, hovExtArr := h2,
                 hovExtPl := h3, other := ot, otherMarshal := om } : Pred.C20.Obs))
@@ -120,6 +121,18 @@ def c01reuse : Handler :=
       o == .ok ((if p.header.extension then p.header.exts.length else 0), p.header.csrc.length))
     (fun (p, _) => wfQ p)
 
+/-- `c01.inplace  <inner packet> <outer packet> <prev bytes> mode => r1 r2` : unwrapping an
+    encapsulated packet in place — the receiver decodes Marshal(outer with payload := Marshal(inner)),
+    then `recv.Unmarshal(recv.Payload)` (mode 1: `recv.Payload = buf` by hand, `recv.Unmarshal(buf)`).
+    r1 / r2 : the receiver after the first / second decode, through the public accessors. -/
+def c01inplace : Handler :=
+  mkHandler (do let i ← rdPacket; let o ← rdPacket; let prev ← Rd.bytes; let m ← Rd.nat
+                pure ({ inner := i, outer := o, prev := prev, mode := m } : Pred.C01.InplaceIn))
+    (do let a ← rdPktRes; let b ← rdPktRes; pure (a, b))
+    Pred.C01.inplaceModel
+    Pred.C01.inplacePred
+    (fun x => wfQ x.inner && (x.mode == 1 || wfQ x.outer))
+
 def handlers : List (String × Handler) :=
-  [("c01.reuse", c01reuse), ("c01.rt", c01rt), ("c04.to", c04to), ("c20.clone", c20clone)]
+  [("c01.inplace", c01inplace), ("c01.reuse", c01reuse), ("c01.rt", c01rt), ("c04.to", c04to), ("c20.clone", c20clone)]
 end Rtp.Kinds.CoreA
